@@ -396,6 +396,9 @@ func ToUint32(f float64) uint32 {
 type Separator struct {
 	Re  *Regexp
 	Str []uint16
+	// WholePairs is a deviation model: no split position lies between the two
+	// code units of a surrogate pair (an implementation that walks code points).
+	WholePairs bool
 }
 
 func (sep Separator) splitMatch(s []uint16, q int) (e int, caps []Cap, ok bool, err error) {
@@ -450,6 +453,10 @@ func Split(s []uint16, sep Separator, limit *float64) ([]Cap, error) {
 	}
 	q := p
 	for q < size {
+		if sep.WholePairs && q > 0 && s[q-1]&0xFC00 == 0xD800 && s[q]&0xFC00 == 0xDC00 {
+			q++
+			continue
+		}
 		e, caps, ok, err := sep.splitMatch(s, q)
 		if err != nil {
 			return nil, err
